@@ -38,6 +38,7 @@ pub mod hist;
 pub mod ir;
 pub mod l0;
 pub mod l1;
+pub mod l3fam;
 pub mod machine;
 pub mod pipeline;
 pub mod progs;
